@@ -2,10 +2,12 @@ package main
 
 import (
 	"bytes"
+	"encoding/base64"
 	"encoding/json"
 	"fmt"
 	"os"
 	"path/filepath"
+	"unicode/utf8"
 
 	"github.com/modernizing/coca/cmd"
 	"github.com/modernizing/coca/pkg/application/analysis/goapp"
@@ -279,6 +281,7 @@ func dispatch(op Op) (interface{}, error) {
 		type ent struct {
 			Mode string `json:"mode"`
 			Text string `json:"text"`
+			B64  string `json:"b64,omitempty"` // content that is not valid UTF-8 (legacy source encodings)
 		}
 		snap := map[string]ent{}
 		err := filepath.Walk(a.Dir, func(p string, info os.FileInfo, err error) error {
@@ -293,7 +296,11 @@ func dispatch(op Op) (interface{}, error) {
 				return err
 			}
 			rel, _ := filepath.Rel(a.Dir, p)
-			snap[filepath.ToSlash(rel)] = ent{info.Mode().String(), string(b)}
+			if utf8.Valid(b) {
+				snap[filepath.ToSlash(rel)] = ent{info.Mode().String(), string(b), ""}
+			} else {
+				snap[filepath.ToSlash(rel)] = ent{info.Mode().String(), "", base64.StdEncoding.EncodeToString(b)}
+			}
 			return nil
 		})
 		if err != nil {
